@@ -128,14 +128,16 @@ class ParseSnapshots(Contract):
         cases = [['1 2 0'], ['1 2 0 3'], ['# c', '', '1 2 0', '1 2'], ['1 2 0 # tail', '   ', '3 4 5 9 extra'], ['1 2 x'], ['a 2 0'], ['1 2 0 z'], ['1 2 3 # c # d', '#'], ['1,2,0']]
         for lines in cases:
             for delim in (None, ','):
-                v = run_parse_case(self.cls, lines, delim)
-                if v:
-                    return {'violated': v, 'call': 'parse_snapshots(%r, directed=%r, delimiter=%r, nodetype=int, timestamptype=int) with the graph classes replaced by recorders' % (lines, self.directed, delim),
-                            'replayer': {'module': 'contracts.parsers', 'function': 'run_parse_case', 'args': [self.cls, lines, delim]}}
+                for conv in ('int', 'lookup'):
+                    v = run_parse_case(self.cls, lines, delim, conv)
+                    if v:
+                        return {'violated': v, 'call': 'parse_snapshots(%r, directed=%r, delimiter=%r, nodetype=%s, timestamptype=int) with the graph classes replaced by recorders'
+                                % (lines, self.directed, delim, 'int' if conv == 'int' else 'a dict lookup (KeyError on unknown text)'),
+                                'replayer': {'module': 'contracts.parsers', 'function': 'run_parse_case', 'args': [self.cls, lines, delim, conv]}}
         return None
 
 
-def run_parse_case(cls, lines, delim):
+def run_parse_case(cls, lines, delim, conv='int'):
     import dynetx as dn
     from dynetx.readwrite import edgelist as E
     calls = []
@@ -151,7 +153,9 @@ def run_parse_case(cls, lines, delim):
     directed = cls == 'DynDiGraph'
     try:
         try:
-            G = E.parse_snapshots(list(lines), directed=directed, delimiter=delim, nodetype=int, timestamptype=int)
+            table = dict((str(i), i) for i in range(10))
+            nodeconv = int if conv == 'int' else table.__getitem__          # (the lookup raises KeyError, not ValueError)
+            G = E.parse_snapshots(list(lines), directed=directed, delimiter=delim, nodetype=nodeconv, timestamptype=int)
             outcome = 'return'
         except Exception as ex:
             G, outcome = None, type(ex).__name__
